@@ -23,7 +23,10 @@ impl RunningTaskComm {
 
     fn send_stop(&mut self, reason: StopReason) {
         if let Some(sender) = std::mem::take(&mut self.stop_sender) {
-            assert!(sender.send(reason).is_ok());
+            if sender.send(reason).is_err() {
+                // The task has already ended (e.g. it is only flushing its output stream)
+                log::debug!("Stopping a task that is no longer listening");
+            }
         } else {
             log::debug!("Stopping a task in stopping process");
         }
